@@ -962,8 +962,8 @@ class TypedValue(Value):
             suffix = " (literal only)"
         else:
             suffix = ""
-        if self._type_object is not None:
-            return f"{self._type_object}{suffix}"
+        # Do not consult self._type_object here: whether it has been filled in depends on
+        # which checks ran before, and the text of a value must not.
         return stringify_object(self.typ) + suffix
 
 
